@@ -132,7 +132,7 @@ Branches(h) == IF IsA(WK(h), "Union") THEN Kids(h) ELSE <<h>>
 RECURSIVE Origin(_)
 Origin(h) ==
   CASE h.k = "cls" -> h.s
-    [] h.k = "newtype" -> "NT:" \o h.s
+    [] h.k = "newtype" -> (IF h.m = <<>> THEN "NT:" ELSE "NTW:") \o h.s     \* every NewType has its own synthetic class
     [] h.k = "any" -> "typing.Any"
     [] h.k = "tupf" -> "tuple"    [] h.k = "type" -> "type"    [] h.k = "items" -> "ItemsView"
     [] h.k \in {"seq", "reit", "quasi", "map", "shallow"} -> h.s
@@ -162,6 +162,7 @@ AbcSup(c) ==
 \* classes derived from a class of the universe: the synthetic class of a NewType ("NT:c") and the classes
 \* K(c) made by one factory (same module and qualified name, hence the same repr(), different bases)
 NTBase(c) == CASE c = "NT:int" -> "int" [] c = "NT:str" -> "str" [] c = "NT:A" -> "A"
+               [] c = "NTW:int" -> "int" [] c = "NTW:str" -> "str"
                [] c = "K:int" -> "int" [] c = "K:str" -> "str" [] OTHER -> ""
 \* issubclass(c, d) on origins
 RECURSIVE OSub(_, _)
